@@ -134,8 +134,91 @@ def check_config(cfg, w, rep):
                           loc=s.loc(), config=cfg, rule="panic-site")
     for k, v in n_by.items():
         rep.count("%s[%s]" % (k, cfg), v)
+    check_retry_loops(cfg, w, rep)
     rep.floor("panic_sites", len(sites), 10, cfg)
     rep.floor("public_entry_points", len(w.public_fns()), 30, cfg)
+
+
+def check_retry_loops(cfg, w, rep):
+    """The one hang class that is visible in the shape of the code: a loop that goes round again ONLY when a fallible call
+    inside it failed (retry-until-success) must have an iteration bound — otherwise a persistent failure (the temp file is
+    gone, the disk stays full) makes the public call spin for ever instead of returning the error. Loops that also go
+    round on success (read loops, line loops, poll state machines) and await loops are data-driven; their termination
+    is not decided here."""
+    prog = w.prog
+    derived = derived_bodies(prog)
+    n_loops = 0
+    for body in prog.bodies:
+        if body.path in derived:
+            continue
+        cf = prog.cfg(body)
+        loops = cf.loops()
+        if not loops:
+            continue
+        live = cf.live()
+        gates = None
+        for h, bl in loops:
+            if any(body.blocks[b].term.k == "yield" for b in bl):
+                continue      # the poll loop of an .await
+            n_loops += 1
+            back = [u for u in bl if h in cf.succ[u]]
+            if gates is None:
+                gates = _result_match_gates(prog, body)
+            err_edges = set()
+            for g in gates:
+                if g.edge[0] in bl and g.site_blk in bl:
+                    for (u, v) in g.other_edges:
+                        if v in bl:
+                            err_edges.add((u, v))
+            lf = prog.owner_fn(body)
+            key = "%s:loop@%s" % (fn_key(lf), short(body.path))
+            if not err_edges or not back:
+                continue
+            reach = cf.reachable(h, cut_edges=err_edges, cut_nodes=set(live) - set(bl))
+            if any(u in reach for u in back):
+                rep.ob(cfg, "loop:data-driven", key, "a loop of `%s` also goes round on success: not a retry loop" % short(lf.path))
+                continue
+            # retry loop: is it bounded by a counter that changes in the loop?
+            counts = any(st.k == "assign" and st.rv.k == "binop" and st.rv.j["op"] in ("Add", "AddWithOverflow", "Sub", "SubWithOverflow")
+                         for b in bl for st in body.blocks[b].stmts)
+            compares = False
+            for b in bl:
+                tu = body.blocks[b].term
+                if tu.k == "switch" and tu.discr.place is not None:
+                    for o in prog.resolve_pl(body, tu.discr.place, IDENT):
+                        if o.kind == "binop" and o.info.j["op"] in ("Lt", "Le", "Gt", "Ge", "Eq", "Ne"):
+                            compares = True
+            if counts and compares:
+                rep.ob(cfg, "loop:bounded-retry", key, "retry loop of `%s` is bounded by a counter" % short(lf.path))
+            else:
+                u, v = sorted(err_edges)[0]
+                rep.violation("retry-loop:%s" % key,
+                              "`%s` retries a failing call in a loop with no bound (the loop goes round only through the error arm at %s): if the "
+                              "failure persists the public call never returns — a hang instead of an error" % (short(lf.path), blk_loc(body, u)),
+                              loc=blk_loc(body, h), config=cfg, rule="unbounded-retry")
+    rep.count("loops_examined[%s]" % cfg, n_loops)
+
+
+def _result_match_gates(prog, body):
+    """match / if-let on a Result produced by a call of this body: passing edge = Ok arm, other edges = Err arms."""
+    from ..gates import switch_other_targets
+    cf = prog.cfg(body)
+    out = []
+    for b in body.blocks:
+        t = b.term
+        if b.cleanup or b.i not in cf.live() or t.k != "switch" or t.discr.place is None:
+            continue
+        for o in prog.resolve_pl(body, t.discr.place, IDENT):
+            if o.kind != "discr":
+                continue
+            pl = o.info.place
+            if norm_path(pl) or not body.local_ty(pl.local).startswith("std::result::Result<"):
+                continue
+            leaves = prog.resolve_lifted(body, pl.local, (), OKFLOW)
+            if leaves and all(x.kind == "call" and x.body is body for x in leaves):
+                others = [(b.i, x) for x in switch_other_targets(t, VIDX["Ok"])]
+                out.append(Gate(body, (b.i, switch_target(t, VIDX["Ok"])), "match on Result", max(x.blk for x in leaves), others))
+    return out
 
 
 class Discharger:
@@ -158,7 +241,7 @@ class Discharger:
     def local(self, s):
         for rule in (self.r_checked_before, self.r_path_has_parent, self.r_const_parse, self.r_fixed_hex, self.r_read_amount,
                      self.r_range_full, self.r_len_just_set, self.r_same_length, self.r_reserved_before, self.r_overflow_guarded,
-                     self.r_counter_overflow, self.r_clock, self.r_range_add, self.r_filled_grows, self.r_range_checked):
+                     self.r_add_below_const, self.r_counter_overflow, self.r_clock, self.r_range_add, self.r_filled_grows, self.r_range_checked):
             r = rule(s)
             if r:
                 s.discharge, s.why = r
@@ -550,6 +633,72 @@ class Discharger:
                         g = Gate(body, (bb.i, tgt), "end <= len", bb.i)
                         if not unreachable_without(prog, body, [g], [s.blk]):
                             return ("range-checked", "range a..e with e = a.checked_add(n) is only used on the edge where e <= len(base)")
+        return None
+
+    def r_add_below_const(self, s):
+        """`x + c` (c a small constant) asserted for overflow, reached only on the true edge of `x < K` / `x <= K` with K a
+        small constant and x not assigned in between: the sum is at most K + c."""
+        if s.kind != "assert:Overflow" or "Add" not in s.what:
+            return None
+        prog = self.prog
+        body = s.body
+        t = s.term
+        add = None
+        for o in prog.resolve_pl(body, t.discr.place, IDENT) if t.discr.place else []:
+            if o.kind == "binop" and o.info.j["op"] == "AddWithOverflow":
+                add = o.info.ops
+        if not add or len(add) != 2:
+            return None
+        SMALL = 1 << 30
+
+        def small_const(op):
+            return op.is_const and isinstance(op.const_val, int) and 0 <= op.const_val <= SMALL
+
+        def plc(op):
+            """The user place an operand copies (temporaries assigned exactly once by a plain copy are looked through)."""
+            if op.place is None:
+                return None
+            cur = op.place
+            for _ in range(4):
+                defs = [st for b in body.blocks if not b.cleanup for st in b.stmts
+                        if st.k == "assign" and st.place.local == cur.local and not norm_path(st.place)]
+                if len(defs) == 1 and defs[0].rv.k == "use" and defs[0].rv.ops[0].place is not None and not norm_path(cur):
+                    cur = defs[0].rv.ops[0].place
+                else:
+                    break
+            return (cur.local, tuple(norm_path(cur)))
+        if small_const(add[1]) and add[0].place is not None:
+            x = plc(add[0])
+        elif small_const(add[0]) and add[1].place is not None:
+            x = plc(add[1])
+        else:
+            return None
+        cf = prog.cfg(body)
+        for bb in body.blocks:
+            tu = bb.term
+            if bb.cleanup or tu.k != "switch" or tu.discr.place is None:
+                continue
+            for o in prog.resolve_pl(body, tu.discr.place, IDENT):
+                if o.kind == "binop" and o.info.j["op"] in ("Lt", "Le", "Gt", "Ge"):
+                    l, r = o.info.ops
+                    op = o.info.j["op"]
+                    tgt = None
+                    if op in ("Lt", "Le") and plc(l) == x and small_const(r):
+                        tgt = switch_target(tu, 1)
+                    if op in ("Gt", "Ge") and plc(r) == x and small_const(l):
+                        tgt = switch_target(tu, 1)
+                    if tgt is None:
+                        continue
+                    g = Gate(body, (bb.i, tgt), "cmp", bb.i)
+                    if unreachable_without(prog, body, [g], [s.blk]):
+                        continue
+                    # x keeps its value from the comparison to the addition
+                    after = cf.reachable(tgt, cut_nodes={bb.i})
+                    between = {b for b in after if s.blk in cf.reachable(b, cut_nodes={bb.i})}
+                    between |= {o.blk} if o.blk != bb.i else set()
+                    dirty = any(st.k == "assign" and st.place.local == x[0] for b in between for st in body.blocks[b].stmts)
+                    if not dirty:
+                        return ("add-below-const", "the addition is only reached when the counter is below a small constant (dominating comparison, counter unchanged in between)")
         return None
 
     def r_counter_overflow(self, s):
